@@ -345,7 +345,7 @@ pub fn run(ctx: &mut LaneCtx) {
     ctx.run_sub(
         SubSpec {
             name: "live-os-streams",
-            cases: (320, 25_000),
+            cases: (800, 25_000),
             rule: "generated targets: argv 0..20 (empty, non-UTF-8, long), environment 0..50 variables, changed rlimits, 0..60 descriptors of 7 kinds, shared/private mappings of all permissions, blamed thread main/other; auxv mode {kernel, true direct, direct with some values zero, direct values leading to a synthetic linker list in the target}; oracle as in assumptions; non-trivial = >=10 descriptors of >=3 kinds, or synthetic chain, or partially zero direct auxv; distinct = hash of case",
             strategy: live_strategy().boxed(),
             max_shrink_iters: 150,
